@@ -15,6 +15,8 @@ CLAIMED["C16"] = ("reference-model monitor: psd_safe_cholesky (function, setting
                   "runtime monitoring: per-member perturbation oracle (L L^T - A = delta I, delta minimal) with exception/warning outcome monitor")
 CLAIMED["C20"] = ("reference-model monitor: every kernel of utils.toeplitz / interpolation / sparse / permutation / qr / pinverse and dsmm (+ gradient) on seeded inputs over its documented domain, compared with its dense definition in plain torch",
                   "runtime monitoring: reference-model monitor (dense definitions) over generated inputs")
+CLAIMED["C02"] = ("shadow-execution monitor: expression programs (binary + - @ * over ordered class pairs and operator/tensor pairs, scalar kinds, cat, sum/prod, expand/repeat/squeeze/unsqueeze/permute/transpose, add_diagonal/add_jitter/add_low_rank/cat_rows, 1-3 steps) run on the library and step by step on dense tensors; shape and value compared after every step; explicit not-supported errors accepted",
+                  "runtime monitoring: shadow execution of expression programs against torch dense semantics")
 PENDING = {}
 def main():
     hooks_commits = []
